@@ -319,9 +319,55 @@ def compare_class(prog, cls):
         for it in hdr:
             if it["kind"] == "byte" and isinstance(it["v"], tuple) and it["v"][0] in ("bits", "alt"):
                 v = it["v"]
+                if v[0] == "alt" and alt_to_bits(v) is not None:
+                    it = dict(it, v=alt_to_bits(v))
+                    v = it["v"]
                 if v[0] == "bits":
                     _compare_bits(it, dec, ren, note, header=True)
+        # ... and the converse, for the first byte: a field the decoder takes from it that the encoder, on this combination of its own
+        # guards, does not or into it (retain only written when qos != 0).  Not for the field whose own falsehood is the assumption (qos
+        # under `if self.qos`: what is left out is 0) and not for DUP at QoS 0, which the specification fixes at 0 [MQTT-3.3.1-2]
+        first = hdr[0] if hdr and hdr[0]["kind"] == "byte" and isinstance(hdr[0]["v"], tuple) else None
+        if first is not None and first["v"][0] in ("bits", "const"):
+            written = {src_field(d) for d, sh, g in first["v"][2]} if first["v"][0] == "bits" else set()
+            for r in dec.reads:
+                if r["kind"] != "bits" or not isinstance(r.get("source"), dict) or r["source"].get("kind") != "hdrbyte" or str(r["source"].get("off")) != "0":
+                    continue
+                tgt = r["target"][1] if r["target"][0] == "self" else next(
+                    (x["target"][1] for x in dec.reads if x["kind"] == "bind" and x.get("source") is r and x["target"][0] == "self"), None)
+                if tgt is None or tgt in written or tgt not in encm.fields_read:
+                    continue
+                false_guards = {g.replace("(", "").replace(")", "").strip() for g, val in e_assume.items() if val is False}
+                if ("self.%s" % tgt) in false_guards or (tgt == "dup" and "self.qos" in false_guards):
+                    continue
+                note("L4", "flag[%s].guard" % tgt, "the decoder reads self.%s from the first byte, but on this combination the encoder does not or it in: "
+                     "the flag is lost on the way (it decodes as clear whatever it was)" % tgt, r.get("node"))
     return problems, stats, encm, decm
+
+
+def alt_to_bits(v):
+    """('alt', guard, A, B) where one arm's flag byte is the other's with more or-ed in: the common part plus the rest under the guard
+    (the negated guard when the richer arm is the else arm).  None when the arms are not related that way."""
+    if not (isinstance(v, tuple) and v and v[0] == "alt" and len(v) == 4):
+        return None
+    g, a, b = v[1], v[2], v[3]
+
+    def norm(x):
+        if isinstance(x, tuple) and x and x[0] == "const" and isinstance(x[1], int):
+            return ("bits", x[1], ())
+        return x if isinstance(x, tuple) and x and x[0] == "bits" else None
+    a, b = norm(a), norm(b)
+    if a is None or b is None:
+        return None
+    for rich, poor, gt in ((a, b, g), (b, a, "not (%s)" % g)):
+        if tuple(poor[2]) == tuple(rich[2][:len(poor[2])]) and (poor[1] & ~rich[1]) == 0:
+            extra = rich[2][len(poor[2]):]
+            parts = tuple(poor[2]) + tuple((d, sh, gt if gg is None else "%s and %s" % (gg, gt)) for d, sh, gg in extra)
+            cd = rich[1] & ~poor[1]
+            if cd:
+                parts = parts + ((("const", cd), 0, gt),)
+            return ("bits", poor[1], parts)
+    return None
 
 
 def _describe(it):
@@ -349,7 +395,7 @@ def _compare_bits(it, dec, ren, note, header):
     for r in dec.reads:
         if r["kind"] == "bits" and r.get("source") is not None:
             src = r["source"]
-            if header and src["kind"] == "hdrbyte" and src["off"] == off:
+            if header and src["kind"] == "hdrbyte" and str(src["off"]) == str(off):
                 recs.append(r)
             elif not header and src["kind"] == "byte" and ren_lin(src["off"], ren) == off:
                 recs.append(r)
@@ -363,6 +409,18 @@ def _compare_bits(it, dec, ren, note, header):
         if f is None:
             continue
         cand = [r for r in recs if (r["target"] == ("self", f)) or binds.get(id(r)) == f]
+        if g is not None and cand:
+            # a field or-ed in only under a condition, read back whatever the condition was: when the condition fails the field's value is
+            # not on the wire and the decoder makes up another one.  Fine when the condition is the field's own truth (qos under `if self.qos`:
+            # what is left out is 0), and for the one pair the specification forces (DUP is 0 at QoS 0, [MQTT-3.3.1-2])
+            rd = cand[0]
+            sink = [x for x in dec.reads if x["kind"] == "bind" and x.get("source") is rd and x["target"] == ("self", f)]
+            uncond = (rd["target"] == ("self", f) and not rd.get("guard")) or any(not x.get("guard") for x in sink)
+            own = g.replace("(", "").replace(")", "").strip() in ("self.%s" % f, "self.%s != 0" % f, "self.%s > 0" % f, "self.%s == True" % f)
+            forced = (it.get("cls"), f) in (("PUBLISH", "dup"),) or (header and f == "dup" and "self.qos" in g)
+            if uncond and not own and not forced:
+                note("L4", "flag[%s].guard" % f, "self.%s is or-ed into the flag byte only when %s, but the decoder reads it from that byte unconditionally: "
+                     "with the condition false the flag is not written and decodes as clear" % (f, g), r.get("node") if (r := rd) else None)
         if not cand:
             if not recs:
                 continue
